@@ -19,6 +19,8 @@ func init() {
 		if sm, err := buildScanModel(p); err == nil {
 			r.Explain("R9 a token with a fixed spelling consumes exactly its spelling: the net cursor movement on every path that ends with that token text equals the length of the text.")
 			c15ExactSpelling(p, r, sm)
+			r.Explain("R10 positions are 1-based: Line = line+1, Column = (cursor - line head) + 1, and the line head becomes cursor+1 when a newline is passed.")
+			c15PositionArithmetic(p, r, sm)
 		}
 	})
 }
@@ -957,4 +959,91 @@ func c15ExactSpelling(p *Program, r *Report, sm *scanModel) {
 			fmt.Sprintf("the token %q is returned after the cursor moved by %v character(s): the character after it is swallowed (or it is scanned again)", lit, got))
 	}
 	r.Floor("C15.R9", n, 25)
+}
+
+// c15PositionArithmetic (R10): positions are 1-based and columns are counted from the line head. Three constants carry that:
+// Position{Line: line+1, Column: offset-lineHead+1}, and, when the cursor passes a newline, lineHead = offset+1 and line = line+1.
+// (A column that is off by one leaves "at most one past the end of that line".)
+func c15PositionArithmetic(p *Program, r *Report, sm *scanModel) {
+	st := sm.scanT.Underlying().(*types.Struct)
+	fieldName := func(v ssa.Value) string {
+		u, ok := v.(*ssa.UnOp)
+		if !ok {
+			return ""
+		}
+		fa, ok := u.X.(*ssa.FieldAddr)
+		if !ok || namedOf(derefType(fa.X.Type())) != sm.scanT {
+			return ""
+		}
+		return st.Field(fa.Field).Name()
+	}
+	// sym: renders loads of scanner fields and +/- constants
+	var sym func(v ssa.Value, d int) string
+	sym = func(v ssa.Value, d int) string {
+		if d > 5 {
+			return "?"
+		}
+		if f := fieldName(v); f != "" {
+			return f
+		}
+		switch x := v.(type) {
+		case *ssa.Const:
+			if x.Value != nil {
+				return x.Value.ExactString()
+			}
+		case *ssa.BinOp:
+			if x.Op == token.ADD || x.Op == token.SUB {
+				return "(" + sym(x.X, d+1) + x.Op.String() + sym(x.Y, d+1) + ")"
+			}
+		}
+		return "?"
+	}
+	cursor := st.Field(sm.offI).Name()
+	n := 0
+	for _, fn := range sm.methods {
+		for _, b := range fn.Blocks {
+			for _, in := range b.Instrs {
+				store, ok := in.(*ssa.Store)
+				if !ok {
+					continue
+				}
+				fa, ok := store.Addr.(*ssa.FieldAddr)
+				if !ok {
+					continue
+				}
+				// fields of a Position literal being built
+				if isNamed(derefType(fa.X.Type()), modPath+"/ast", "Position") {
+					fname := fieldOfAddr(fa).Name()
+					got := sym(store.Val, 0)
+					switch fname {
+					case "Line":
+						if strings.Contains(got, "?") {
+							continue
+						}
+						n++
+						r.Check(strings.HasSuffix(got, "+1)") && !strings.Contains(got, cursor), "C15.R10", funcName(fn)+"|Line", p.Pos(instrPos(store)), "Line = "+got, "the line of a position is "+got+", not the zero-based line count plus one")
+					case "Column":
+						if strings.Contains(got, "?") {
+							continue
+						}
+						n++
+						// (cursor - lineHead) + 1
+						okCol := strings.HasPrefix(got, "(("+cursor+"-") && strings.HasSuffix(got, ")+1)")
+						r.Check(okCol, "C15.R10", funcName(fn)+"|Column", p.Pos(instrPos(store)), "Column = "+got, "the column of a position is "+got+", not (cursor - line head) + 1")
+					}
+					continue
+				}
+				if namedOf(derefType(fa.X.Type())) != sm.scanT || fa.Field == sm.offI || fa.Field == sm.srcI {
+					continue
+				}
+				// a scanner field assigned from the cursor: the line head
+				got := sym(store.Val, 0)
+				if strings.Contains(got, cursor) && !strings.Contains(got, "?") {
+					n++
+					r.Check(got == "("+cursor+"+1)", "C15.R10", funcName(fn)+"|line head", p.Pos(instrPos(store)), st.Field(fa.Field).Name()+" = "+got+" when a newline is passed", "the line head is set to "+got+" when the cursor passes a newline, not to the offset of the character after it: every column on the following line is off by the difference")
+				}
+			}
+		}
+	}
+	r.Floor("C15.R10", n, 3)
 }
